@@ -31,6 +31,11 @@ func init() {
 			{ID: "C10.R8", Text: "every follower is pinged, numbered and listed: every loop over a concurrent map runs to completion: the Range callback returns true on every path (frozen exception: markAbsentInstances stops at the error it returns)", Run: rangeComplete("servicediscovery.", "couchbase.cbMembership)")},
 			{ID: "C10.R9", Text: "static numbering is what was configured: defaulting never rewrites a configured member number or group size (every default store is guarded by the zero-test of its own field; the environment overrides come last) (same rule as C17.R1)", Run: c17r1},
 			{ID: "C10.R11", Text: "a member is who it is by name and address: Identity.Equal ⇔ same IP ∧ same name (exhaustive), independent of the join time that changes when a container restarts in place", Run: identityEqual},
+			{ID: "C10.R12", Text: "Couchbase membership, life cycle: the constructor registers, then starts heart-beat and monitor; each starter spawns a loop that calls its worker on every iteration", Run: cbmLifecycle},
+			{ID: "C10.R13", Text: "Couchbase membership, change test: isClusterChanged ⇔ the lists differ in length or in some position's id (0..2 instances each, exhaustive over id equalities)", Run: cbmClusterChanged},
+			{ID: "C10.R14", Text: "Couchbase membership, one monitor round: a live instance is recorded at its own index, a missing document is skipped, any other read/parse error stops the client, Done exactly once; then changed → updateIndex(list, index CAS) → ok: rebalance(same list) | CAS mismatch: monitor again", Run: cbmMonitorRound},
+			{ID: "C10.R15", Text: "Couchbase membership, registration: index entry → update | update(key not found) → create → update; every remaining error stops the client", Run: cbmRegister},
+			{ID: "C10.R16", Text: "the numbering a member works with: GetInfo returns the recorded membership when there is one and otherwise waits for the first announcement (exhaustive, all bus-fed implementations)", Run: infoGetters},
 			{ID: "C10.R5", Text: "Couchbase membership: lastActiveInstances is written only in the numbering step after the publish decision; on CAS mismatch the round is restarted (monitor re-entered), nothing is rewritten", Run: c10r5},
 		},
 	})
